@@ -44,6 +44,7 @@ type Interp struct {
 	pathsSinceRestart  int
 	curFn              string
 	fnStack            []string
+	lastPanicSite      string
 	initProblems       []string
 }
 
@@ -96,7 +97,7 @@ func (in *Interp) globalAddr(g *ssa.Global) *value {
 	cell := new(value)
 	pkg := g.Pkg
 	if pkg != nil && !in.initDone[pkg] && !in.prog.initAllowed(pkg) && !zeroOKPackages[pkg.Pkg.Path()] {
-		*cell = poison{"global " + g.String() + " of uninitialised package"}
+		*cell = poison{"global " + g.String() + " of uninitialised package (read in " + in.stackTail(3) + ")"}
 	} else {
 		*cell = in.zero(deref(g.Type()))
 	}
